@@ -63,6 +63,8 @@ def run(env, tier, seed, broken=None):
             # neither the implementation nor the model finishes within its allowance (a generated program whose data grows
             # exponentially): no verdict
             core.INCONCLUSIVE.append('both:' + mres[0])
+        elif r['timeout'] and r.get('truncated') and mres and not mres[0].startswith('noresult') and len(core.model_stdout(mres[1] if len(mres) > 1 else '')) >= len(r['stdout']):
+            pass      # stopped by the 1 MB output cap on a program whose (terminating) model run prints at least as much
         elif r['timeout']:
             bad = 'did not terminate within the time limit'
         elif r['status'] not in (0, 65, 70) or core.PANIC_RX.search(r['stderr']):
